@@ -280,6 +280,8 @@ impl Server {
 
 
             pool.execute(move || {
+                #[cfg(rws_verif)]
+                crate::verif::at(crate::verif::Point::JobStart, 0, connection.client.port as u64);
                 let boxed_process = Server::process(stream, connection, app);
                 if boxed_process.is_err() {
                     let message = boxed_process.err().unwrap();
